@@ -300,6 +300,60 @@ def gen_head_cases(rng, n, tier):
     return cases
 
 
+BUFSZ = 8160          # HTTP_BUFSIZE (checked against the generated constant in run())
+
+
+def big_head(rng, isreq, total, long_at=None):
+    """a head of about [total] bytes made of short header lines; long_at = 'uri' | 'hdr': one line longer than the buffer"""
+    if isreq:
+        uri = b"/home.html" if long_at != "uri" else b"/" + b"u" * (BUFSZ + rng.randrange(0, 900))
+        out = b"GET " + uri + b" HTTP/1.1\r\nHost: 127.0.0.1\r\n"
+    else:
+        out = b"HTTP/1.1 200 OK\r\n"
+    i = 0
+    longpos = rng.randrange(0, max(1, total // 2)) if long_at == "hdr" else None
+    while len(out) < total:
+        if longpos is not None and len(out) >= longpos:
+            out += b"X-Long: " + b"L" * (BUFSZ + rng.randrange(0, 2000)) + b"\r\n"
+            longpos = None
+        out += b"X-F-%03d: " % i + bytes(rng.choice(b"abcxyz019") for _ in range(rng.randrange(1, 90))) + b"\r\n"
+        i += 1
+    return out + b"\r\n" + rng.choice([b"", b"BODY"])
+
+
+def gen_bighead_cases(rng, nstreams, tier):
+    cases = []
+    # the shape of seeded/C16/3: 100 header lines of 87 bytes after the request line
+    seed3 = b"GET /home.html HTTP/1.1\r\nHost: 127.0.0.1\r\n" + b"".join(
+        b"X-Filler-%03d: " % i + b"v" * 70 + b"\r\n" for i in range(100)) + b"\r\n"
+    streams = [("hreq", seed3, "hreq-big")]
+    for k in range(nstreams):
+        isreq = k % 2 == 0
+        long_at = None
+        if k % 5 == 3:
+            long_at = "hdr"
+        elif k % 10 == 4:
+            long_at = "uri"
+        s = big_head(rng, isreq, rng.choice([6000, 8100, 8160, 8300, 9000, 12000, 16400, 20000]), long_at)
+        streams.append(("hreq" if isreq else "hres", s, ("hreq" if isreq else "hres") + ("-longline" if long_at else "-big")))
+    for kind, s, tag in streams:
+        n = len(s)
+        lf = [i + 1 for i in range(n) if s[i] == 10]                      # positions just after a line
+        strad = [p for p in lf if p > BUFSZ][:1]                           # end of the line that straddles the buffer end
+        cutsets = [[], [BUFSZ], [BUFSZ - 1], [BUFSZ + 1], [min(n - 1, 1500 * i) for i in range(1, n // 1500 + 1)],
+                   [5000], [8100], [BUFSZ - 3, BUFSZ + 2]]
+        if strad:
+            cutsets += [[strad[0] - 1], [strad[0]], [max(1, strad[0] - 40), strad[0] + 1]]
+        cutsets.append([p for p in lf if p < n][::max(1, len(lf) // 50)])  # line aligned pieces
+        for _ in range(4 if tier == "quick" else 12):
+            k = rng.choice([1, 2, 3, 8, 30])
+            cutsets.append(sorted(set(rng.randrange(1, n) for _ in range(k))))
+        for cs in cutsets:
+            cs = sorted(set(c for c in cs if 0 < c < n))[:60]
+            cases.append((tag, "%s %s %s" % (kind, hx(s), ",".join(map(str, cs)) or "-")))
+    return cases
+
+
 def gen_b64_cases(rng, n):
     cases = []
     for ln in list(range(0, 24)) + [31, 32, 33, 47, 48, 49, 60]:
@@ -411,9 +465,14 @@ def run(tier, seed, replay=None):
                   + [rbytes(rng, rng.randrange(0, 300)) for _ in range(10 if q else 300)]]
         cases += gen_chunk_cases(rng, 500 if q else 60000, tier)
         cases += gen_head_cases(rng, 600 if q else 60000, tier)
+        cases += gen_bighead_cases(rng, 10 if q else 120, tier)
         cases += gen_ws_cases(rng, 600 if q else 30000, tier)
         cases += gen_send_cases(rng, 80 if q else 6000)
     lap("build done")
+    mb = re.search(r"C16_HTTP_BUFSIZE : N := (\d+)", open(os.path.join(COQ, "Gen", "Consts.v")).read())
+    global BUFSZ
+    if mb:
+        BUFSZ = int(mb.group(1))
     lines = [c[1] for c in cases]
     # pause between two pieces of a stream written to the loopback socket (microseconds)
     gap = ("1500",) if q else ("3000",)
@@ -566,6 +625,32 @@ def run(tier, seed, replay=None):
             elif mm:
                 distinct.add((kind, t[1]))
             continue
+        if kind in ("hreq", "hres"):
+            fin_i = io[-1] if io else ""
+            fin_m = mo[-1] if mo else ""
+            # implementation-only oracle: whatever the cuts, the same bytes must give the same outcome
+            seg_groups.setdefault((kind + " (through http_rd_buf)", t[1]), []).append((idx, fin_i))
+            classes.add((kind, " ".join(fin_i.split()[1:3])))
+            raw = unhx(t[1])
+            longest = max(len(x) + 1 for x in raw.split(b"\n"))
+            m3 = re.match(r"h(?:req|res) rv=(\S+) status=(\d+)", fin_i)
+            if m3 and longest <= BUFSZ and raw.startswith((b"GET /home.html HTTP/1.1\r\n", b"HTTP/1.1 200 OK\r\n")) \
+                    and (m3.group(1), m3.group(2)) != ("0", "200"):
+                viol("bighead", idx, "a well-formed head whose lines all fit the read buffer was not accepted (rv=%s status=%s, %d bytes, cuts %s)"
+                     % (m3.group(1), m3.group(2), len(raw), t[2][:60]))
+                continue
+            if m3 and longest > BUFSZ + 2 and (m3.group(1), m3.group(2)) == ("0", "200"):
+                viol("bighead", idx, "a head with a line longer than the read buffer was accepted")
+                continue
+            if fin_m == "head unmodelled":
+                continue
+            if " reason=*" in fin_m:
+                fin_i = re.sub(r" reason=\S+", " reason=*", fin_i)
+            if fin_i != fin_m:
+                diverged.append((idx, "HttpBufModel"))
+            else:
+                distinct.add((kind, t[1], t[2]))
+            continue
         if kind == "ws":
             role, mode, pre = t[1], t[2], int(t[6])
             hs = [x for x in io if x.startswith("hs")]
@@ -651,7 +736,7 @@ def run(tier, seed, replay=None):
                     "case_histogram": hist, "outcome_classes": len(classes), "cases": len(cases),
                     "model_impl_divergences": len(diverged), "leak_reports": leak_only,
                     "cases_with_pongs_dropped_at_connection_end": pongs_lost[0]})
-    rep.assumptions += ["http_rd_buf's 8 KiB policy (URI too long / headers too large) is not modelled",
+    rep.assumptions += ["the heads nng emits (http_snprintf) are not modelled (checked against the grammar at run time only)",
                         "nni_url_canonify_uri is modelled on unreserved-character paths only (others: 'head unmodelled', skipped)",
                         "WebSocket back-pressure (no receiver waiting) not modelled: the harness always has a receive posted",
                         "cut positions of the loopback runs are realised by pauses between writes (no clamp hook): a cut may be merged by the kernel",
